@@ -46,6 +46,7 @@ FAULT_PROPS = {
     "LEN_GT_CAP": {"C05", "C17", "C03"},
     "IS_EMPTY": {"C05"},
     "HINT": {"C09", "C10"},
+    "ITER_PROVIDED": {"C09", "C10"},
     "FUSED": {"C08"},
     "NOT_LEFT": {"C08"},
     "PAIR_SPLIT": {"C05", "C12"},
@@ -336,7 +337,7 @@ def opname(code):
              21: "get_mut", 22: "get_key_value", 23: "contains_key", 24: "index", 25: "index_mut", 30: "remove",
              31: "remove_entry", 32: "retain", 33: "clear", 34: "drain", 35: "with_capacity", 40: "iter-session",
              41: "into_iter-session", 42: "iter-nth", 43: "drain-nth", 44: "into_iter-nth", 142: "Set::iter-nth",
-             143: "Set::drain-nth", 144: "Set::into_iter-nth", 50: "entry-chain", 51: "get_disjoint_mut", 60: "clone", 61: "eq",
+             143: "Set::drain-nth", 144: "Set::into_iter-nth", 50: "entry-chain", 51: "get_disjoint_mut", 60: "clone", 61: "eq", 67: "clone_from", 68: "default", 167: "Set::clone_from", 168: "Set::default",
              62: "from_iter", 64: "format", 66: "serde", 110: "Set::insert", 111: "Set::replace",
              122: "Set::get", 123: "Set::contains", 130: "Set::remove", 131: "Set::take", 132: "Set::retain",
              133: "Set::clear", 134: "Set::drain", 135: "Set::extend", 140: "Set::iter-session",
